@@ -8,6 +8,17 @@ from .paths import Cfg, evaluated
 CLOSING = {"221", "421"}
 
 
+class _NoneConst:
+    def __bool__(self):
+        return False
+
+    def __repr__(self):
+        return "None"
+
+
+NONE_CONST = _NoneConst()
+
+
 class PathFacts:
     """interpret one event sequence of a handler/worker: constants, replies, spawns, delegation"""
 
@@ -34,13 +45,16 @@ class PathFacts:
                 v = const_values(p, a, fn)
                 return v[0] if v else None
             if isinstance(a, ast.Name):
-                return env.get(a.id)
+                v = env.get(a.id)
+                return None if v is NONE_CONST else v
             return None  # self.fail_code etc. are resolved by the wrapper rule
 
         def bind(t, v):
             if isinstance(t, ast.Name):
                 if isinstance(v, ast.Tuple) and v.elts and all(isinstance(x, ast.Constant) for x in v.elts[:1]):
                     env[t.id] = tuple(x.value if isinstance(x, ast.Constant) else None for x in v.elts)
+                elif isinstance(v, ast.Constant) and v.value is None:
+                    env[t.id] = NONE_CONST    # the constant None (env value None means "unknown")
                 else:
                     env[t.id] = v.value if isinstance(v, ast.Constant) else (env.get(v.id) if isinstance(v, ast.Name) else None)
 
@@ -55,6 +69,11 @@ class PathFacts:
                     truthy.append(src(expand(p, tt, fn)))
                 if isinstance(tt, ast.Name) and tt.id in env and env[tt.id] is not None and bool(env[tt.id]) != tpol:
                     self.infeasible = True
+                if isinstance(tt, ast.Compare) and len(tt.ops) == 1 and isinstance(tt.ops[0], (ast.Is, ast.IsNot)) and isinstance(tt.left, ast.Name) and tt.left.id in env \
+                        and env[tt.left.id] is not None and isinstance(tt.comparators[0], ast.Constant) and tt.comparators[0].value is None:
+                    is_none = env[tt.left.id] is NONE_CONST
+                    if (is_none if isinstance(tt.ops[0], ast.Is) else not is_none) != tpol:
+                        self.infeasible = True
                 if isinstance(tt, ast.Constant) and bool(tt.value) != tpol:
                     self.infeasible = True
                 if isinstance(tt, ast.Compare) and len(tt.ops) == 1 and isinstance(tt.ops[0], (ast.Eq, ast.NotEq)) \
@@ -126,7 +145,7 @@ class PathFacts:
             elif isinstance(v, ast.Constant):
                 self.ret = v.value
             elif isinstance(v, ast.Name) and v.id in env and env[v.id] is not None:
-                self.ret = env[v.id]
+                self.ret = None if env[v.id] is NONE_CONST else env[v.id]
             elif self.delegate:
                 self.ret = "delegate:" + self.delegate
             elif v is None:
